@@ -780,7 +780,7 @@ def check(run):
             stats["by_fault"][cs["fault"]] = stats["by_fault"].get(cs["fault"], 0) + 1
         for kind, text in bad[:1]:
             if kind == "config-rejected":
-                run.violation("tie-broken", "C20 %s: %s [config %s; the model's valid_cfg accepts it]" % (kind, text, cs["cfg"][0]),
+                run.violation("tie-broken", "C20 %s: %s [config %s, which the check treats as valid]" % (kind, text, cs["cfg"][0]),
                               {"correspondence": "Mirror.Model.valid_cfg vs config::parse", "input": {"config": cs["cfg"]}, "scenario_with_mirrors": cs["scn_m"], "scenario_without": cs["scn_b"]})
         if cs.get("failed"):
             continue
@@ -877,6 +877,42 @@ def check(run):
         if metas:
             samples.append({"kind": "model", "expr": exprs[0][:600], "value": vals[0][:300]})
 
+    # ---- C20-M4 regression (fixed by 0edee1c): a mirror that names no server of its shard must be REJECTED; and the
+    # model's valid_cfg must agree with config::parse on every mapping used here
+    rej_scns = []
+    for cfg in REJECTED_CONFIGS:
+        prog = [req("c1", [Q("SELECT 1 /*rej*/")])]
+        rej_scns += [build_scenario(cfg, prog, [], True, tail_ms=10), build_scenario(cfg, prog, [], False, tail_ms=10)]
+    rej_res = W.run_scenarios(wire, rej_scns, timeout=60)
+    accepted_by_impl = {}
+    for k, cfg in enumerate(REJECTED_CONFIGS):
+        rm_, rb_ = rej_res[2 * k], rej_res[2 * k + 1]
+        run.cov["evaluations"] += 1
+        distinct.add("rejected:" + cfg[0])
+        if "harness_error" in rm_ or "harness_error" in rb_ or failed(rb_):
+            run.broken.append("wire harness failed (rejected-config regression %s): %s / %s" % (cfg[0], str(rm_.get("harness_error") or rm_.get("start_error"))[:120], str(rb_.get("harness_error") or rb_.get("start_error"))[:120]))
+            continue
+        accepted_by_impl[cfg[0]] = not rm_.get("start_error")
+        if not rm_.get("start_error"):
+            opened = [mb for mb, t in cfg[2] if conn_frames(rm_, mb)[1]]
+            run.violation("counterexample", "C20-M4 regression: the configuration %s (a mirror whose mirroring_target_index is not a server of its shard) is accepted; mirrors connected to: %s" % (cfg[0], opened),
+                          {"input": {"config": cfg, "toml": rej_scns[2 * k]["toml"]}, "expected": "config::parse -> BadConfig", "scenario_with_mirrors": rej_scns[2 * k], "scenario_without": rej_scns[2 * k + 1]})
+        elif "BadConfig" not in str(rm_.get("start_error")):
+            run.broken.append("rejected-config regression %s: pgcat did not start, but not with BadConfig: %s" % (cfg[0], str(rm_.get("start_error"))[:200]))
+    for cs in cases:
+        if cs["kind"] == "healthy" and not cs.get("failed"):
+            accepted_by_impl[cs["cfg"][0]] = True
+    run.cov["rejected_configs_checked"] = sorted(k for k, v in accepted_by_impl.items() if not v)
+    if proof_ok:
+        names = sorted(accepted_by_impl)
+        allc = {c[0]: c for c in CONFIGS + REJECTED_CONFIGS}
+        vv = vlib.coq_eval("c20v", PREAMBLE, ["valid_cfg %s" % coq_cfg(allc[n]) for n in names], shard=40)
+        for n, v in zip(names, vv):
+            run.cov["evaluations"] += 1
+            if vlib.parse_coq(v) != accepted_by_impl[n] and not (accepted_by_impl[n] and n in [c[0] for c in REJECTED_CONFIGS]):
+                run.violation("tie-broken", "valid_cfg (model) = %s but config::parse %s the mapping %s" % (v, "accepts" if accepted_by_impl[n] else "rejects", n),
+                              {"correspondence": "Mirror.Model.valid_cfg vs Shard::validate", "input": {"config": allc[n]}, "model": v}, found_input=False)
+
     # ---- confirmed mirror-only defects, each with its control
     if not run.violations:
         cfgd, progd, scn_f = desync_scenario(True)
@@ -922,8 +958,8 @@ def check(run):
                        "second mirror random; programs of 5-15 requests: simple queries, transactions, SET, extended batches (named/unnamed), COPY IN with chunks up to 9000 bytes, queries of 8.2-20 kB, error replies, "
                        "bursts of 15-24 pipelined queries, SET SERVER ROLE switches, a second client holding a transaction on its own server connection, the real server closing its connection + a new client; "
                        "+ healthy and outage (mirror unreachable, > capacity requests, mirror back) families compared with the Coq model; + back-pressure runs (mirror stops reading, 6-10 MB of requests); "
-                       "+ mirrors_of on every (mapping, index 0..6); + 3 directed scenarios for the mirror-only defects. A failing pair is re-run alone and reported only if it fails again. "
-                       "distinct = distinct (mapping, program, schedule) triples + attachment queries" % (nfault, len(CONFIGS), FAULTS))
+                       "+ mirrors_of on every (mapping, index 0..6) incl. %d mappings that must be rejected (a mirror naming no server: regression of C20-M4) with valid_cfg compared to config::parse; + 3 directed scenarios for the mirror-only defects. A failing pair is re-run alone and reported only if it fails again. "
+                       "distinct = distinct (mapping, program, schedule) triples + attachment queries" % (nfault, len(CONFIGS), FAULTS, len(REJECTED_CONFIGS)))
     run.cov["samples"] = samples[:5]
     run.cov["input_distribution"] = stats
     run.cov["unconfirmed_first_failures"] = unconfirmed[:10]
